@@ -20,6 +20,9 @@ pub mod unprepared;
 
 pub use crate::frame::types::{Consistency, SerialConsistency};
 pub use unprepared::Statement;
+#[cfg(scylla_verif)]
+#[allow(missing_docs)]
+pub use prepared::verif_hooks as verif_prepared;
 
 // This is the default common to drivers.
 const DEFAULT_PAGE_SIZE: i32 = 5000;
